@@ -261,7 +261,7 @@ func TestPropCLI(t *testing.T) {
 		n := rapid.OneOf(rapid.IntRange(8, 30), rapid.IntRange(8, 30), rapid.IntRange(1, 3)).Draw(rt, "nreads")
 		nontrivial := false
 		for i := 0; i < n; i++ {
-			rd, _ := genRead(rt, sh, ms)
+			rd, _ := genReadMosaic(rt, sh, ms)
 			if len(rd.Seq) == 0 {
 				continue // an empty record is the file parsers' subject (C01), not a read
 			}
